@@ -226,12 +226,14 @@ pub fn judge(c: &Case, policy: Policy) -> CaseResult {
     let fail_index = c.fail_index;
     // fresh interpreter on a fresh thread per program: the history is on ONE interpreter
     on_fresh_thread(move || {
-        let mut it = Interp::new().expect("interpreter");
+        let mut it = Interp::must_new();
         let mut m = Machine::new(policy);
         for f in parse_all(SETUP) {
             m.eval_top(&f).expect("reference setup");
             let o = it.eval(&f.to_string());
-            assert!(matches!(o, Outcome::Val(_)), "setup failed: {}", o);
+            if !matches!(o, Outcome::Val(_)) {
+                crate::drive::impl_fail(&format!("the setup form {} => {}", f, o));
+            }
         }
         let (mut exp, mut obs) = (vec![], vec![]);
         let mut ok = true;
